@@ -16,7 +16,7 @@
 (* Abstract structures: [name, elems]; element kinds below.  Orientations   *)
 (* are right angles (D4); everything is integer.                            *)
 (***************************************************************************)
-EXTENDS D4, Contains
+EXTENDS D4, WideContains        \* Contains + the same predicates over the whole 32-bit coordinate range
 
 Struct(lib, n) == CHOOSE s \in { lib[i] : i \in 1..Len(lib) } : s.name = n
 Defined(lib, n) == \E i \in 1..Len(lib) : lib[i].name = n
@@ -58,7 +58,8 @@ Texts(s) == { i \in 1..Len(s.elems) : s.elems[i].k = "text" }
 Hits(s, t, i) ==      \* text t lies inside own shape i, on the same layer number
   LET e == s.elems[i]  q == s.elems[t].at IN
   /\ e.layer = s.elems[t].layer
-  /\ IF e.k = "path" THEN PathMust(q, e.pts, e.width) ELSE Inside(q, Open(e.pts))
+  /\ IF e.k = "path" THEN PathMust(q, e.pts, e.width)
+     ELSE IF IsWide(Open(e.pts)) THEN WInside(q, Open(e.pts)) ELSE Inside(q, Open(e.pts))
 Annotations(s) == { t \in Texts(s) : \A i \in OwnShapes(s) : ~Hits(s, t, i) }
 \* labels naming shape i (the generator never puts two different strings on one shape)
 LabelsOf(s, i) == { s.elems[t].str : t \in { u \in Texts(s) : Hits(s, u, i) } }
